@@ -160,7 +160,7 @@ where
             (kind, op, (g("d") - 1) as usize, (a0 - 1).max(0) as usize, (b0 - 1).max(0) as usize, g("fm") as u64,
              rawv.unwrap_or((num as i128) as u128), g("nt") as usize)
         } else {
-            let kind = if step < 3 { 0 } else { [1u64, 1, 1, 1, 2, 3, 4, 4, 5, 6, 0][rng.below(11) as usize] };
+            let kind = if step < 3 { 0 } else { [1u64, 1, 1, 1, 2, 3, 4, 4, 5, 6, 0, 7][rng.below(if c.wr.big { 12 } else { 11 }) as usize] };
             let op = match kind {
                 1 => BINOPS[rng.below(BINOPS.len() as u64) as usize],
                 2 => INTOPS[rng.below(INTOPS.len() as u64) as usize],
@@ -168,6 +168,7 @@ where
                 4 => UNOPS[rng.below(UNOPS.len() as u64) as usize],
                 5 => ["sum", "product"][rng.below(2) as usize],
                 6 => "from_int",
+                7 => "from_float",
                 _ => "load",
             };
             let numraw = match kind {
@@ -282,6 +283,26 @@ where
                     c.wr.raw(&format!("{}", x + 1));
                 }
                 c.wr.raw("],\"r\":");
+                c.wr.out1(&wout(r));
+                c.wr.raw("}");
+                c.wr.end();
+            }
+            7 => {
+                // Wrapping::from_num of a float: finite values wrap, non-finite ones panic
+                let is32 = form % 2 == 0;
+                let mag = (rng.below(1 << 20) as f64) * 2f64.powi(rng.below(160) as i32 - 60) * if rng.below(2) == 0 { 1.0 } else { -1.0 };
+                let x: f64 = match rng.below(12) { 0 => f64::NAN, 1 => f64::INFINITY, 2 => f64::NEG_INFINITY, 3 => -0.0, 4 => 0.5, 5 => -1.5, _ => mag };
+                let (bits, r): (u64, Result<W<F>, bool>) = if is32 {
+                    let y = x as f32;
+                    (y.to_bits() as u64, cat(|| W::<F>::from_num(y)))
+                } else {
+                    (x.to_bits(), cat(|| W::<F>::from_num(x)))
+                };
+                if let Ok(v) = r { reg[d] = v; }
+                ev_head(c, "from_float", d);
+                c.wr.raw(&format!(",\"ft\":{},\"fb\":", if is32 { 32 } else { 64 }));
+                c.wr.num(Num::u(bits as u128));
+                c.wr.raw(",\"r\":");
                 c.wr.out1(&wout(r));
                 c.wr.raw("}");
                 c.wr.end();
